@@ -24,7 +24,7 @@ def sendResolution : List Act :=
   [.cmd Command.TconResolution, .data [u8 HEIGHT], .data [u8 WIDTH]]
 
 def init (d : DState) : List Act :=
-  [.reset 20000 2000] ++
+  [.reset 20000 2000, .upd (fun d => { d with isOn := false })] ++   -- (fix 5eabf9f)
   cmdData Command.PanelSetting [0x6F] ++
   cmdData Command.PowerSetting [0x03, 0x00, 0x2b, 0x2b] ++
   cmdData Command.ChargePumpSetting [0x3F] ++
